@@ -145,3 +145,6 @@ func vEach(f func()) {
 func vDump(name string, x interface{}) {}
 
 func vHasParam(name string) bool { _, ok := vhParams[name]; return ok }
+
+// vSharedWrites natively: the race detector decides (replays of these obligations are generated -race tests)
+func vSharedWrites(f func()) int { f(); return 0 }
